@@ -1,7 +1,8 @@
 (* C08 -- README.txt documentation is current after every operation. *)
 From Coq Require Import ZArith List Bool.
 From Darr Require Import Base ArrayModel RaggedModel Spec
-     Proofs.ArrayRefine Proofs.ArrayHist Proofs.Create Proofs.RaggedBase Proofs.RaggedRefine Proofs.RaggedProps.
+     Proofs.ArrayRefine Proofs.ArrayHist Proofs.Create Proofs.RaggedBase Proofs.RaggedRefine Proofs.RaggedProps
+     Skel Gen_effects EffectOrder EffectOrderR Proofs.SkelExact.
 Import ListNotations.
 Open Scope Z_scope.
 
@@ -87,3 +88,19 @@ Example C08_listing_example :
   (rf_first (facts_of (g 6%nat)), rf_dots (facts_of (g 6%nat)), rf_last (facts_of (g 6%nat))) = ([1;2;3;4;5], false, Some 6) /\
   (rf_first (facts_of (g 7%nat)), rf_dots (facts_of (g 7%nat)), rf_last (facts_of (g 7%nat))) = ([1;2;3;4;5], true, Some 7).
 Proof. vm_compute. repeat split. Qed.
+
+(* Tie by translation (DESIGN sec. 4.1a): the functions through which every change of
+   length goes -- Array._update_len and RaggedArray._update_lens, as their control
+   skeletons are re-read from the source on every run -- rewrite the README AFTER the
+   description in EVERY completed run: there is no completed path through the present
+   source that changes a description and leaves the README as it was. *)
+Theorem C08_update_len_rewrites_readme_from_source : forall o ks,
+  aruns sk_update_len o ks -> o <> Raised -> ks = [KDescr; KReadme].
+Proof. exact update_len_exact. Qed.
+Print Assumptions C08_update_len_rewrites_readme_from_source.
+
+Theorem C08_ragged_update_lens_rewrites_readme_from_source : forall o ks,
+  rruns sk_ragged_update_lens o ks -> o <> Raised ->
+  ks = [KV KDescr; KV KReadme; KI KDescr; KI KReadme; KRDescr; KRReadme].
+Proof. exact ragged_update_lens_exact. Qed.
+Print Assumptions C08_ragged_update_lens_rewrites_readme_from_source.
